@@ -120,7 +120,7 @@ def gen_doc(rng, big=False):
         for j in range(rng.choice([50, 200])):
             doc["signatures"]["gone-%d-1.0-0.tar.bz2" % j] = {"ab" * 32: {"signature": "cd" * 64}}
     prior = rng.choice([None, None, None, "missing", "empty", "no_packages", "packages_not_object", "not_json", "bad_key", "unserializable_artifact"])
-    return {"kind": "doc", "prior_failure": prior, "doc": dict(items), "seed": seed_hex, "pre": pre, "extra": extra,
+    return {"kind": "doc", "via": rng.choice(["api", "api", "cli"]), "prior_failure": prior, "doc": dict(items), "seed": seed_hex, "pre": pre, "extra": extra,
             "layout": rng.choice(["compact", "compact", "canonical", "wide", "wide"])}
 
 
@@ -187,8 +187,25 @@ def check_case(case, rec, lib, scratch):
         original = json.load(f)
     exp = expected_doc(original, key)
     exp_bytes = canonjson.canon(exp)
+    via_cli = case.get("via") == "cli" and getattr(lib, "cli", None) is not None
+    rec.hist("entry", "cli" if via_cli else "api")
     with probes.CallCounter(S, "serialize_and_sign") as cc:
-        out = boundary.call(lib, S.sign_all_in_repodata, fn, key.seed.hex())
+        if via_cli:
+            # the same signing through the command-line function (key read from a key file)
+            kf = os.path.join(scratch, "key.hex")
+            with open(kf, "w") as f:
+                f.write(key.seed.hex() + "\n")
+            try:
+                out = boundary.call(lib, lib.cli.cli, ["sign-artifacts", fn, kf])
+            except SystemExit as e:
+                out = boundary.Outcome()
+                out.kind, out.value = ("return", e.code)
+            if out.accepted and out.value not in (0, None):
+                rec.violation("sign-raises/sign-artifacts/nonzero-status-on-wellformed-document",
+                              "sign-artifacts reported status %r for a well-formed repodata document and key" % (out.value,), case)
+                return
+        else:
+            out = boundary.call(lib, S.sign_all_in_repodata, fn, key.seed.hex())
     if not out.accepted:
         rec.violation(boundary.mechanism("sign-raises", "sign_all_in_repodata", "return", out),
                       "signing a well-formed repodata document raised %s: %s" % (out.cls, (out.msg or "")[:120]), case)
